@@ -732,7 +732,10 @@ impl<'a> Parser<'a> {
                 continue;
             }
 
-            members.push(self.parse_class_member()?);
+            // Abstract members declare a shape only and have no run-time presence
+            if let Some(member) = self.parse_class_member()? {
+                members.push(member);
+            }
         }
 
         self.require_token(&TokenKind::RBrace)?;
@@ -741,25 +744,53 @@ impl<'a> Parser<'a> {
         Ok(ClassBody { members, span })
     }
 
-    fn parse_class_member(&mut self) -> Result<ClassMember, JsError> {
+    /// Returns None for an abstract member
+    fn parse_class_member(&mut self) -> Result<Option<ClassMember>, JsError> {
         let start = self.current.span;
 
         // Parse decorators first
         let decorators = self.parse_decorators()?;
 
-        let static_ = self.match_token(&TokenKind::Static);
+        let mut static_ = self.match_token(&TokenKind::Static);
 
         // Check for static initialization block: static { ... }
         if static_ && self.check(&TokenKind::LBrace) {
             let block = self.parse_block_statement()?;
-            return Ok(ClassMember::StaticBlock(block));
+            return Ok(Some(ClassMember::StaticBlock(block)));
         }
 
-        // Parse abstract modifier (TypeScript)
-        let is_abstract = self.match_token(&TokenKind::Abstract);
-
-        let accessibility = self.parse_accessibility();
-        let readonly = self.match_token(&TokenKind::Readonly);
+        // TypeScript modifiers, in any order (`protected abstract`, `public static`,
+        // `static readonly`, `override`); a modifier word followed by something that cannot
+        // start a member name is itself the member's name
+        let mut is_abstract = false;
+        let mut accessibility = None;
+        let mut readonly = false;
+        loop {
+            let is_modifier_word = match &self.current.kind {
+                TokenKind::Abstract => !is_abstract,
+                TokenKind::Public | TokenKind::Private | TokenKind::Protected => {
+                    accessibility.is_none()
+                }
+                TokenKind::Readonly => !readonly,
+                TokenKind::Static => !static_,
+                TokenKind::Identifier(s) => s.as_str() == "override",
+                _ => false,
+            };
+            if !is_modifier_word || !self.peek_starts_member_name() {
+                break;
+            }
+            match &self.current.kind {
+                TokenKind::Abstract => is_abstract = true,
+                TokenKind::Readonly => readonly = true,
+                TokenKind::Static => static_ = true,
+                TokenKind::Identifier(_) => {}
+                _ => {
+                    accessibility = self.parse_accessibility();
+                    continue;
+                }
+            }
+            self.advance();
+        }
         let accessor = self.match_token(&TokenKind::Accessor);
 
         // Check for async method
@@ -774,12 +805,12 @@ impl<'a> Parser<'a> {
             let params = self.parse_function_params()?;
             let body = self.parse_block_statement()?;
             let span = self.span_from(start);
-            return Ok(ClassMember::Constructor(Box::new(ClassConstructor {
+            return Ok(Some(ClassMember::Constructor(Box::new(ClassConstructor {
                 params,
                 body,
                 accessibility,
                 span,
-            })));
+            }))));
         }
 
         // Check for getter/setter
@@ -802,17 +833,12 @@ impl<'a> Parser<'a> {
             let params: Rc<[_]> = self.parse_function_params()?.into();
             let return_type = self.parse_optional_return_type()?;
 
-            // Abstract methods have no body - just a semicolon
-            let body = if is_abstract {
+            // Abstract methods have no body - just a semicolon - and are not emitted
+            if is_abstract {
                 self.expect_semicolon()?;
-                // Create empty body for abstract methods (they're never called at runtime)
-                Rc::new(BlockStatement {
-                    body: Rc::from([]),
-                    span: self.span_from(start),
-                })
-            } else {
-                Rc::new(self.parse_block_statement()?)
-            };
+                return Ok(None);
+            }
+            let body = Rc::new(self.parse_block_statement()?);
 
             let value = FunctionExpression {
                 id: None,
@@ -826,7 +852,7 @@ impl<'a> Parser<'a> {
             };
 
             let span = self.span_from(start);
-            Ok(ClassMember::Method(Box::new(ClassMethod {
+            Ok(Some(ClassMember::Method(Box::new(ClassMethod {
                 key,
                 value,
                 kind: method_kind,
@@ -835,7 +861,7 @@ impl<'a> Parser<'a> {
                 accessibility,
                 decorators,
                 span,
-            })))
+            }))))
         } else {
             // Property
             let optional = self.match_token(&TokenKind::Question);
@@ -852,9 +878,12 @@ impl<'a> Parser<'a> {
             };
 
             self.expect_semicolon()?;
+            if is_abstract {
+                return Ok(None);
+            }
 
             let span = self.span_from(start);
-            Ok(ClassMember::Property(Box::new(ClassProperty {
+            Ok(Some(ClassMember::Property(Box::new(ClassProperty {
                 key,
                 value,
                 type_annotation,
@@ -866,7 +895,7 @@ impl<'a> Parser<'a> {
                 accessibility,
                 decorators,
                 span,
-            })))
+            }))))
         }
     }
 
@@ -5030,6 +5059,23 @@ impl<'a> Parser<'a> {
             TokenKind::Implements => "implements",
             _ => "",
         })
+    }
+
+    /// Whether the token after the current one can start a class member name (so the current
+    /// token is a modifier rather than the name of a member)
+    fn peek_starts_member_name(&mut self) -> bool {
+        let checkpoint = self.lexer.checkpoint();
+        let next = self.lexer.next_token();
+        self.lexer.restore(checkpoint);
+        match next.kind {
+            TokenKind::Identifier(_)
+            | TokenKind::String(_)
+            | TokenKind::Number(_)
+            | TokenKind::LBracket
+            | TokenKind::Hash
+            | TokenKind::Star => true,
+            _ => self.is_keyword_kind(&next.kind),
+        }
     }
 
     fn peek_is_property_name(&mut self) -> bool {
